@@ -151,8 +151,29 @@ def parse_stream(stream):
             m = M.MsgSerializable.stream_deserialize(f)
         except Exception as e:
             return [entries, vals.classify(e), f.tell()]
-        entries.append([0, f.tell()] if m is None else [1, val_from_msg(m), f.tell()])
+        if m is None:
+            entries.append([0, f.tell()])
+            continue
+        v = val_from_msg(m)
+        if type(m) is M.msg_version and not reuse_ok(m):
+            v = [0, -1]          # the addresses parsed out of this version message cannot be used in an addr message
+        entries.append([1, v, f.tell()])
     return [entries, 0, f.tell()]
+
+
+def reuse_ok(m):
+    """the network addresses parsed out of a version message are ordinary address objects: put into an
+    addr message (with a time stamp) they frame and parse back like any other"""
+    try:
+        lst = [x for x in (m.addrTo, m.addrFrom) if x is not None]
+        for k, x in enumerate(lst):
+            x.nTime = 1000 + k
+        a = M.msg_addr()
+        a.addrs = lst
+        back = M.MsgSerializable.stream_deserialize(BytesIO(a.to_bytes()))
+        return [val_from_taddr(x) for x in back.addrs] == [val_from_taddr(x) for x in lst]
+    except Exception:  # noqa
+        return False
 
 
 def payload_ser(m):
